@@ -69,7 +69,90 @@ def jwt_cases(rng, tier):
     return out
 
 
+J7523_MUTS = ["none", "iss-wrong", "iss-substring", "iss-prefix", "iss-missing", "client_id-missing", "grant_type-missing", "exp-missing", "exp-past", "nbf-future", "iat-future",
+              "wrong-key", "alg-none", "alg-hs256-with-pem", "alg-es256", "not-jwt", "scope-missing"]
+
+
+def jwt7523_cases():
+    """RFC 7523 JWT access tokens (JWTBearerTokenGenerator → JWTBearerTokenValidator)"""
+    out = []
+    for m in J7523_MUTS:
+        for req in (None, ["a"], ["z"], ["a b"]):
+            for issuer_conf in (True, False):
+                out.append({"kind": "jwt7523", "mut": m, "required": req, "issuer_configured": issuer_conf})
+    return out
+
+
+def impl_jwt7523(c):
+    import joseref as JR
+    from authlib.jose import jwt as _jwt
+    from authlib.oauth2.rfc7523 import JWTBearerTokenGenerator, JWTBearerTokenValidator
+    ms.install_clock(); CLOCK.now = 1_000_000
+    k1, k2 = JR.keys()["rsa1"], JR.keys()["rsa2"]
+    gen = JWTBearerTokenGenerator(JR.pem_private(k1), issuer=ISS, alg="RS256")
+
+    class Cl:
+        def get_client_id(self): return "c1"
+        def get_allowed_scope(self, scope): return scope
+    tok = gen(grant_type="client_credentials", client=Cl(), user=None, scope="a b", expires_in=600)
+    claims = dict(_jwt.decode(tok["access_token"], JR.pem_public(k1)))
+    m = c["mut"]
+    key, header = JR.pem_private(k1), {"alg": "RS256"}
+    raw = None
+    if m == "iss-wrong": claims["iss"] = "https://evil.example"
+    elif m == "iss-substring": claims["iss"] = ISS[8:]
+    elif m == "iss-prefix": claims["iss"] = ISS[:-1]
+    elif m == "iss-missing": claims.pop("iss", None)
+    elif m == "client_id-missing": claims.pop("client_id", None)
+    elif m == "grant_type-missing": claims.pop("grant_type", None)
+    elif m == "exp-missing": claims.pop("exp", None)
+    elif m == "exp-past": claims["exp"] = CLOCK.now - 10
+    elif m == "nbf-future": claims["nbf"] = CLOCK.now + 1000
+    elif m == "iat-future": claims["iat"] = CLOCK.now + 1000
+    elif m == "wrong-key": key = JR.pem_private(k2)
+    elif m == "alg-hs256-with-pem": key, header = JR.pem_public(k1), {"alg": "HS256"}
+    elif m == "alg-es256": key, header = JR.pem_private(JR.keys()["ec-P-256-1"]), {"alg": "ES256"}
+    elif m == "scope-missing": claims.pop("scope", None)
+    elif m == "not-jwt": raw = "garbage"
+    if m == "alg-none":
+        import base64, json as _json
+        b = lambda x: base64.urlsafe_b64encode(_json.dumps(x).encode()).rstrip(b"=").decode()
+        raw = b({"alg": "none"}) + "." + b(claims) + "."
+    if raw is None:
+        try:
+            raw = _jwt.encode(header, claims, key)
+            raw = raw.decode() if isinstance(raw, bytes) else raw
+        except Exception:
+            import hmac as _h, hashlib as _hl, base64, json as _json      # the library refuses to sign HS256 with a PEM: sign independently
+            b = lambda x: base64.urlsafe_b64encode(x).rstrip(b"=").decode()
+            si = b(_json.dumps(header).encode()) + "." + b(_json.dumps(claims).encode())
+            raw = si + "." + b(_h.new(key, si.encode(), _hl.sha256).digest())
+    rp = ResourceProtector()
+    rp.register_token_validator(JWTBearerTokenValidator(JR.pem_public(k1), issuer=ISS if c["issuer_configured"] else None))
+    out, tok_obj = run_protector(rp, c["required"], {"Authorization": "Bearer " + raw})
+    if tok_obj is not None:
+        out["current"] = "exposed"
+    return out
+
+
+def expected_jwt7523(c):
+    m = c["mut"]
+    bad = {"iss-wrong", "iss-substring", "iss-prefix", "iss-missing"} if c["issuer_configured"] else set()
+    bad |= {"client_id-missing", "grant_type-missing", "exp-missing", "exp-past", "nbf-future", "iat-future", "wrong-key", "alg-none", "alg-hs256-with-pem", "alg-es256", "not-jwt"}
+    if m in bad:
+        return "invalid_token"
+    have = set() if m == "scope-missing" else {"a", "b"}
+    req = c["required"]
+    if req and not any(set(alt.split()) <= have for alt in req):
+        return "insufficient_scope"
+    return "served"
+
+
 def cases(rng, tier):
+    return _cases(rng, tier) + jwt7523_cases()
+
+
+def _cases(rng, tier):
     b = bearer_cases(rng, tier)
     if tier != "thorough":
         fl = [x for x in b if x.get("via")]
@@ -153,6 +236,8 @@ def run_view(via, store, required, headers):
 
 def impl(c):
     ms.install_clock()
+    if c["kind"] == "jwt7523":
+        return impl_jwt7523(c)
     if c["kind"] == "bearer":
         store = ms.Store()
         rp = ResourceProtector()
@@ -314,6 +399,8 @@ def jwt_model_line(c):
 
 
 def model_line(c):
+    if c["kind"] == "jwt7523":
+        return None
     if c["kind"] != "bearer":
         ms.install_clock()
         try:
@@ -401,8 +488,8 @@ def oracle(c, out):
     kind = c["kind"]
     if "raised" in out:
         return [(f"{out['raised']} escaped the resource protector: {out.get('msg')}", {"kind": "crash", "token": kind, "exc": out["raised"],
-                                                                                 "mut": (c.get("muts") or [""])[0]})]
-    exp = expected_bearer(c) if kind == "bearer" else expected_jwt(c)
+                                                                                 "mut": (c.get("muts") or [c.get("mut", "")])[0]})]
+    exp = expected_bearer(c) if kind == "bearer" else expected_jwt7523(c) if kind == "jwt7523" else expected_jwt(c)
     v = []
     if exp is None:
         return v
